@@ -290,9 +290,13 @@ def derive_comments(vc):
                  {k: v for k, v in old.items() if k not in derived})
 
 
+# "a security code exists" = the configuration HAS the value (0x0202, 0x82), whatever its bytes: empty, zero, 8 bytes
+CODES = (None, b"", b"\x00", b"\x11" * 8, bytes(8))
+
+
 def fam_ab(seed, tier):
     for cust in (False, True):
-        for code in (None, b"\x11" * 8):
+        for code in CODES:
             for cid in ("prj", "dev", "none"):
                 for pre in ([], [1], [3], [2], [1, 2, 3], [9]):
                     yield dict(cust=cust, code=code, cid=cid, pre=pre)
@@ -304,7 +308,7 @@ def derive_auth_blocks(vc):
     M = vc.module(MOD2)
     E = vc.module("bec2format.error")
     cust = vc.choice("cust", [False, True])
-    code = vc.choice("code", [None, b"\x11" * 8])
+    code = vc.choice("code", list(CODES))
     cid = vc.choice("cid", ["prj", "dev", "none"])
     pre = vc.choice("pre", [(), (1,), (3,), (2,), (1, 2, 3), (9,)])
     pre = list(pre)
